@@ -270,10 +270,13 @@ def add_merger(sizes, perm, fam, tier):
         bounds="children with %s entries, %s, symbolic child statuses, %s" % ("/".join(str(x) for x in sizes), keys, fam_text(fam)))
 
 
-for perm in interleavings((2, 2)):
+for perm in ("1212", "2112", "1122", "2211"):
     add_merger((2, 2), perm, "ARR", "quick")
-for perm in ("1212", "1221", "2112"):
+for perm in ("1212", "2112"):
     add_merger((2, 2), perm, "ARA", "quick")
+for perm in interleavings((2, 2)):
+    add_merger((2, 2), perm, "ARR", "thorough")
+    add_merger((2, 2), perm, "ARA", "thorough")
 add_merger((2, 2), "1212", "ARAR", "quick")
 add_merger((1, 1, 1), "213", "ARR", "quick")
 add_merger((1, 2), None, "AR", "quick")
@@ -287,10 +290,10 @@ for perm in interleavings((2, 2)):
 for perm in interleavings((1, 1, 1)) + ["112233", "123123", "321321", "132132"]:
     add_merger((1, 1, 1) if len(perm) == 3 else (2, 2, 2), perm, "ARR", "thorough")
 add_merger((2, 2), None, "ARR", "thorough")
-for (sizes, tier) in (((1, 2), "quick"), ((2, 2), "thorough"), ((3, 2), "thorough"), ((2, 2, 2), "thorough")):
+for (sizes, tier) in (((1, 1), "quick"), ((1, 2), "thorough"), ((2, 2), "thorough"), ((3, 2), "thorough"), ((2, 2, 2), "thorough")):
     add("c.merger-scan-dups-%s" % "x".join(str(x) for x in sizes), "C07/merger.c", real=UTIL_REAL, kit=KIT_SLAB,
         include_real=["table/merger.c"], defs=merger_defs(sizes, 1), unwind=sum(sizes) + 3, tier=tier,
-        functions=MERGER_FUNCS,
+        flags=NOSTD if tier == "quick" else [], functions=MERGER_FUNCS,
         desc="merger.c with keys possibly repeated across children (LevelDB semantics): full forward and full backward scans yield every entry of every child exactly once, in (reverse) comparator order, ties in (reverse) child order",
         bounds="children with %s entries, 1-byte symbolic keys" % "/".join(str(x) for x in sizes))
 
